@@ -37,6 +37,9 @@ def gen(rng, index, tier):
     plan = c01.gen(rng, index, tier, dict_heavy=True, vary_k=rng.random() < 0.3)
     plan["rewriter"] = rng.choice(["noop", "default", "default", "config_dict"])
     plan["flag"] = rng.choice(["default", "ignore", "norewrite"])
+    for ses in plan["sessions"]:
+        if rng.random() < 0.12:
+            ses["outer_k"] = rng.choice([x for x in (0, 1, 2, 3, 10, 10) if x != ses["k"]])
     if rng.random() < 0.3:
         # a deployment whose limit is configured during Config.cli_context(): outside the context the config still reports another value
         plan["k_decoy"] = rng.choice([x for x in (0, 1, 2, 3, 10, 10) if x != plan["k_stub"]])
@@ -168,6 +171,8 @@ def check(plan, r):
         probes["limit lowered between trace and stub time"] += 1
     if plan.get("k_decoy") is not None:
         probes["limit visible only inside Config.cli_context()"] += 1
+    if any(ses.get("outer_k") is not None for ses in plan["sessions"]):
+        probes["session nested inside a tracing block with another limit"] += 1
     return V, evaluated, probes, dict_values
 
 
